@@ -80,7 +80,9 @@ std::map<IndexCombination4,std::vector<ComplexType> > TwoParticleGFContainer::co
     for (size_t p=0; p<comm.size(); p++) {
         int color = int (1.0*p / color_size);
         proc_colors[p] = color;
-        color_roots[color]=p;
+        // The root of a colour is its first process: it has rank 0 in the split communicator and
+        // therefore holds the reduced frequency data.
+        if (!color_roots.count(color)) color_roots[color]=p;
     }
     for (size_t i=0; i<ncomponents; i++) {
         int color = i*ncolors/ncomponents;
@@ -123,6 +125,8 @@ std::map<IndexCombination4,std::vector<ComplexType> > TwoParticleGFContainer::co
             if (comm.rank() != sender) {
                 chi.setStatus(TwoParticleGF::Computed);
                  };
+            // The terms have just been received: the part can be evaluated on every process.
+            if (!clearTerms) chi.parts[p]->Status = TwoParticleGFPart::Computed;
             };
     }
     comm.barrier();
